@@ -36,7 +36,9 @@ ASSUMPTIONS = ['commensurate samplings: alpha = 1/P exactly in floating point (g
                'sum |a|^2 > 0 and p >= 0 for normalize_power']
 RULE = ('random pupils up to 6x6 (zero borders, non-square), periods P = npix*os <= 12 per axis (different per axis in half '
         'the cases, anisotropic pupil or detector pixels), oversample 1..3, chains of 3 nested windows, optional target power, '
-        'DFT (shape and prop_shape) and FFT propagators; plus normalize_power on complex arrays; '
+        'DFT (shape and prop_shape) and FFT propagators; plus normalize_power on complex arrays; plus histories of 2-4 '
+        'propagate_fft calls sharing one scratch buffer sized with lentil.scratch_shape (different wavelengths and pupil sizes, '
+        'grids with rows != cols, buffer dirty at the start in half the cases; oracle only); '
         'non-trivial = more than one pupil sample and at least one of {P_r != P_c, oversample > 1, target power, zero border}')
 
 TOL = 1e-9
@@ -153,8 +155,69 @@ def gen_norm(rng, tier):
     return {'op': 'normalize', 'a': a, 'power': rng.choice(['1', '2', '1/2', '7', '0.375', '1000', '0', '1/1024', '3'])}
 
 
+HIST_FACS = ['1', '1/2', '3/4', '2/3', '5/6', '7/8', '1', '1']
+
+
+def gen_hist(rng, tier):
+    """a history of propagate_fft calls sharing one scratch buffer sized with lentil.scratch_shape"""
+    os_ = rng.choice([1, 1, 2, 2, 3])
+    nmax = 16 // os_
+    t = rng.random()
+    if t < 0.55:                                # more columns than rows
+        npr = rng.randint(2, nmax - 1)
+        npc = rng.randint(npr + 1, nmax)
+    elif t < 0.8:                               # more rows than columns
+        npc = rng.randint(2, nmax - 1)
+        npr = rng.randint(npc + 1, nmax)
+    else:
+        npr = npc = rng.randint(2, nmax)
+    aniso = 'none' if npr == npc else rng.choice(['pupil', 'detector'])
+    Pr, Pc = npr * os_, npc * os_
+    calls = []
+    for _ in range(rng.randint(2, 4)):
+        facs = [f for f in HIST_FACS if (Pr * Fraction(f)).denominator == 1 and (Pc * Fraction(f)).denominator == 1]
+        fac = rng.choice(facs)
+        qr, qc = int(Pr * Fraction(fac)), int(Pc * Fraction(fac))          # this call's FFT grid
+        m = rng.randint(1, min(8, qr))
+        n = rng.randint(1, min(8, qc))
+        if rng.random() < 0.4:                  # a field as wide as the grid allows
+            m, n = min(8, qr), min(8, qc)
+        phden = rng.choice([1, 2, 4, 8])
+        calls.append({'amp': rnd_amp(rng, m, n), 'ph': [[rng.randrange(phden) for _ in range(n)] for _ in range(m)],
+                      'phden': phden, 'lamfac': fac})
+    if not any(cl['lamfac'] == '1' for cl in calls):
+        calls[rng.randrange(len(calls))]['lamfac'] = '1'
+    return {'op': 'ffthist', 'npix': [npr, npc], 'os': os_, 'aniso': aniso,
+            'dexp': rng.choice([6, 7, 8]), 'uexp': rng.choice([16, 17, 18]), 'z': rng.choice(['1', '2', '1/2', '4']),
+            'dirty': rng.random() < 0.5, 'extra': rng.choice([[0, 0], [0, 0], [1, 0], [0, 2], [3, 1]]),
+            'calls': calls}
+
+
+def hist_ok(c):
+    """every call's pupil fits into its FFT grid and the grid sizes are far from rounding ties"""
+    if not alpha_ok(c):
+        return False
+    os_ = c['os']
+    for cl in c['calls']:
+        qr = c['npix'][0] * os_ * Fraction(cl['lamfac'])
+        qc = c['npix'][1] * os_ * Fraction(cl['lamfac'])
+        if qr.denominator != 1 or qc.denominator != 1 or len(cl['amp']) > qr or len(cl['amp'][0]) > qc:
+            return False
+        if single_pixel_offcentre({'op': 'prop', 'amp': cl['amp']}):
+            return False
+    return True
+
+
 def generate(rng, tier):
     n_cases = 110 if tier == 'quick' else 1500
+    n_hist = 40 if tier == 'quick' else 500
+    out = 0
+    while out < n_hist:
+        c = gen_hist(rng, tier)
+        if not hist_ok(c):
+            continue
+        out += 1
+        yield c
     out = 0
     while out < n_cases:
         if rng.random() < 0.8:
@@ -168,12 +231,17 @@ def generate(rng, tier):
 
 
 def classify(c):
+    if c['op'] == 'ffthist':
+        r, q = c['npix']
+        return 'ffthist/%s/%s' % ('wide' if q > r else 'tall' if q < r else 'square', 'dirty' if c['dirty'] else 'clean')
     if c['op'] == 'prop':
         return 'prop/os%d/%s/%s' % (c['os'], c['aniso'], 'norm' if c.get('power') else 'raw')
     return c['op']
 
 
 def nontrivial(c):
+    if c['op'] == 'ffthist':
+        return len(c['calls']) >= 2
     if c['op'] == 'normalize':
         return len(c['a']) * len(c['a'][0]) > 1
     m, n = len(c['amp']), len(c['amp'][0])
@@ -279,6 +347,8 @@ def run_impl(c):
         fdu = (float(du[0]), float(du[1]))
         lam = float(lam)
         os_ = c['os']
+        if c['op'] == 'ffthist':
+            return run_hist(lentil, c, fdx, fdu, float(z), lam, os_)
         amp = np.array(c['amp'], dtype=float)
         if c.get('power'):
             amp = lentil.normalize_power(amp, float(Fraction(c['power'])))
@@ -302,6 +372,59 @@ def run_impl(c):
         return res
     except Exception as e:
         return {'err': type(e).__name__, 'msg': str(e)[:200]}
+
+
+def run_hist(lentil, c, fdx, fdu, z, lam0, os_):
+    lams = [lam0 * float(Fraction(cl['lamfac'])) for cl in c['calls']]
+    shp = lentil.scratch_shape(max(lams), fdx, fdu, z, os_)
+    shp = (int(shp[0]) + c['extra'][0], int(shp[1]) + c['extra'][1])
+    if c['dirty']:
+        g = np.random.default_rng(12345)
+        scratch = (g.normal(size=shp) + 1j * g.normal(size=shp)).astype(complex)
+    else:
+        scratch = np.zeros(shp, dtype=complex)
+    res = {'scratch_shape': list(shp), 'calls': []}
+
+    def wavefront(cl, lam):
+        pupil = lentil.Pupil(amplitude=np.array(cl['amp'], dtype=float),
+                             opd=lam * np.array(cl['ph'], dtype=float) / cl['phden'],
+                             pixelscale=fdx, focal_length=z)
+        return lentil.Wavefront(lam) * pupil
+
+    for cl, lam in zip(c['calls'], lams):
+        w = wavefront(cl, lam)
+        pin = float(np.sum(np.abs(w.field) ** 2))
+        ref = lentil.propagate_fft(wavefront(cl, lam), pixelscale=fdu, oversample=os_).intensity
+        out = lentil.propagate_fft(w, pixelscale=fdu, oversample=os_, scratch=scratch).intensity
+        r = {'pin': pin, 'pin_amp': float(np.sum(np.array(cl['amp'], dtype=float) ** 2)),
+             'ref': float(np.sum(ref)), 'out': float(np.sum(out)),
+             'shape_ref': list(ref.shape), 'shape_out': list(out.shape),
+             'min': float(min(np.min(ref), np.min(out)))}
+        r['maxdiff'] = float(np.max(np.abs(ref - out))) if ref.shape == out.shape else None
+        res['calls'].append(r)
+    return res
+
+
+def oracle_hist(c, impl):
+    os_ = c['os']
+    for k, (cl, r) in enumerate(zip(c['calls'], impl['calls'])):
+        pin = r['pin']
+        grid = [int(c['npix'][0] * os_ * Fraction(cl['lamfac'])), int(c['npix'][1] * os_ * Fraction(cl['lamfac']))]
+        where = f'propagate_fft call {k + 1} of {len(c["calls"])} (grid {grid[0]}x{grid[1]}, scratch {impl["scratch_shape"]}, ' \
+                f'{"dirty" if c["dirty"] else "zeroed"} at the start)'
+        if not close(pin, r['pin_amp'], 1e-12):
+            return f'{where}: pupil-plane power sum|field|^2 = {pin!r}, sum amplitude^2 = {r["pin_amp"]!r}'
+        if r['shape_ref'] != grid or r['shape_out'] != grid:
+            return f'{where}: output shapes {r["shape_ref"]} / {r["shape_out"]} instead of one period {grid}'
+        if r['min'] < 0:
+            return f'{where}: negative intensity sample {r["min"]!r}'
+        if not close(r['ref'], pin):
+            return f'{where}: without scratch the total intensity {r["ref"]!r} differs from the input power {pin!r}'
+        if not close(r['out'], pin):
+            return f'{where}: with the shared scratch buffer the total intensity {r["out"]!r} differs from the input power {pin!r}'
+        if r['maxdiff'] is None or r['maxdiff'] > 1e-9 * pin:
+            return f'{where}: the image differs from the scratch=None image by {r["maxdiff"]!r}'
+    return None
 
 
 def close(a, b, tol=TOL):
@@ -340,6 +463,8 @@ def compare(c, impl, model):
 def oracle(c, impl):
     if 'err' in impl:
         return f'{c["op"]} raised {impl["err"]}: {impl.get("msg", "")}'
+    if c['op'] == 'ffthist':
+        return oracle_hist(c, impl)
     if c['op'] == 'normalize':
         p = float(Fraction(c['power']))
         if abs(impl['power'] - p) > 1e-12 * (1 + p):
